@@ -156,16 +156,20 @@ Section Obj.
           right. apply ustr_eqb_eq. auto.
         * intros _. rewrite amem_aset, ustr_eqb_refl. auto.
       + destruct Hraw as [He Hc]. assert (setting' = st /\ hc' = false) as [-> ->].
-        { destruct isnow; inversion H; subst; auto. }
+        { destruct isnow; [inversion H; subst; auto|]. rewrite Hc in H. rewrite andb_false_r in H.
+          destruct (vr_marking_flag vr); inversion H; subst; auto. }
         split; [auto|split; [apply (Keep _ El He)|repeat split; auto]].
       + destruct Hraw as [He Hc]. assert (setting' = st /\ hc' = false) as [-> ->].
-        { destruct isnow; inversion H; subst; auto. }
+        { destruct isnow; [inversion H; subst; auto|]. rewrite Hc in H. rewrite andb_false_r in H.
+          destruct (vr_marking_flag vr); inversion H; subst; auto. }
         split; [auto|split; [apply (Keep _ El He)|repeat split; auto]].
       + destruct Hraw as [He Hc]. assert (setting' = st /\ hc' = false) as [-> ->].
-        { destruct isnow; inversion H; subst; auto. }
+        { destruct isnow; [inversion H; subst; auto|]. rewrite Hc in H. rewrite andb_false_r in H.
+          destruct (vr_marking_flag vr); inversion H; subst; auto. }
         split; [auto|split; [apply (Keep _ El He)|repeat split; auto]].
       + destruct Hraw as [He Hc]. assert (setting' = st /\ hc' = false) as [-> ->].
-        { destruct isnow; inversion H; subst; auto. }
+        { destruct isnow; [inversion H; subst; auto|]. rewrite Hc in H. rewrite andb_false_r in H.
+          destruct (vr_marking_flag vr); inversion H; subst; auto. }
         split; [auto|split; [apply (Keep _ El He)|repeat split; auto]].
     - inversion H; subst. split; [auto|]. split; [split; [auto|]|repeat split; auto].
       intros k x Hin. apply Hoth; auto. intros ->. rewrite (alookup_In_nodup _ _ _ ND Hin) in El. discriminate.
@@ -401,10 +405,18 @@ Section Obj.
     destruct (sdef s); discriminate.
   Qed.
 
-  Lemma construct_generic_ok fuel kwargs0 vrefs o :
+  (* what the constructor establishes about the stored properties *)
+  Definition facts (setting : list (ustring * pval)) : Prop :=
+    Inv setting /\
+    (forall s', In s' (cslots sc) -> spec_requires sc s' = true -> amem (sname s') setting = true) /\
+    (forall s, In s (cslots c) -> default_present s = true -> amem (sname s) setting = true) /\
+    exists fuel, constr_all (eval_constr pok fuel c setting)
+                            ((match cfamily c with FExt => [CAtLeastOneDefault] | _ => [] end) ++ ccons c) = Ok tt.
+
+  Lemma construct_generic_facts fuel kwargs0 vrefs o :
     kwargs0 = kwargs ->
     construct_generic vr ev w pok sok rc rp ro fuel c false false kwargs0 pre vrefs = Ok o ->
-    good (cid c) o.
+    exists setting, o = PObject (cid c) setting (defaulted_names c setting) false /\ facts setting.
   Proof.
     intros -> H. unfold construct_generic in H.
     rewrite (dict_scope_no_custom _ Hkw) in H. rewrite (aremove_absent _ _ (dict_scope_no_custom _ Hkw)) in H.
@@ -435,9 +447,26 @@ Section Obj.
     subst hc.
     destruct (existsb (fun s => sreq s && negb (amem (sname s) setting)) (cslots c)) eqn:Emiss; [discriminate|].
     inv_bind H. inv_bind Hb. clear Ha. simpl in Hbb. inversion Hbb; subst o. clear Hbb.
+    exists setting. split; auto. destruct a0. split; [auto|split; [|split; [|eauto]]].
+    2: { intros s Hs Hd. eapply Hdef; eauto. unfold prop_names. apply in_map. auto. apply slot_of_self. auto. }
+    intros s' Hs' Er. destruct (Hreq s' Hs' Er) as [s [Hfs Hap]].
+    destruct (find_slot_spec _ _ _ Hfs) as [Hs Hn].
+    unfold always_present in Hap. destruct (sreq s) eqn:Esr.
+    - rewrite <- Hn. destruct (amem (sname s) setting) eqn:Ea; auto.
+      exfalso. assert (existsb (fun s => sreq s && negb (amem (sname s) setting)) (cslots c) = true).
+      { apply existsb_exists. exists s. split; auto. rewrite Esr, Ea. auto. }
+      congruence.
+    - simpl in Hap. rewrite <- Hn. eapply Hdef; eauto.
+      + unfold prop_names. apply in_map. auto.
+      + apply slot_of_self. auto.
+  Qed.
+
+  (* ... and what follows from it about the serialized object *)
+  Lemma facts_good setting : facts setting -> good (cid c) (PObject (cid c) setting (defaulted_names c setting) false).
+  Proof.
+    intros (HInv & Hpresent & _ & fuel & Hall).
     exists setting, (defaulted_names c setting). split; auto.
-    (* validity *)
-    destruct a0. destruct (Hcon fuel setting HInv Hba) as [nc Hnc].
+    destruct (Hcon fuel setting HInv Hall) as [nc Hnc].
     assert (Hmem : exists N, forall kv, In kv (members setting) ->
                match find (fun s => ustr_eqb (sname s) (fst kv)) (cslots sc) with
                | Some s => valid_kind sp pok N (skind s) (snd kv) = true
@@ -458,21 +487,22 @@ Section Obj.
     - rewrite forallb_forall. intros kv Hin. specialize (HN kv Hin).
       destruct (find _ (cslots sc)); [|contradiction]. eapply valid_kind_mono; [|exact HN]. lia.
     - rewrite forallb_forall. intros s' Hs'. destruct (spec_required sc s') eqn:Er; auto. simpl.
+      pose proof (Hpresent s' Hs' Er) as Hpres.
       destruct (Hreq s' Hs' Er) as [s [Hfs Hap]].
       destruct (find_slot_spec _ _ _ Hfs) as [Hs Hn].
-      assert (Hpres : amem (sname s') setting = true).
-      { unfold always_present in Hap. destruct (sreq s) eqn:Esr.
-        - rewrite <- Hn. destruct (amem (sname s) setting) eqn:Ea; auto.
-          exfalso. assert (existsb (fun s => sreq s && negb (amem (sname s) setting)) (cslots c) = true).
-          { apply existsb_exists. exists s. split; auto. rewrite Esr, Ea. auto. }
-          congruence.
-        - simpl in Hap. rewrite <- Hn. eapply Hdef; eauto.
-          + unfold prop_names. apply in_map. auto.
-          + apply slot_of_self. auto. }
       rewrite jlookup_alookup. unfold members, kept. rewrite alookup_map_encode.
       rewrite (alookup_filter_keys (fun k => false || negb (mem_ustr k (defaulted_names c setting)))).
       rewrite <- Hn at 1. rewrite (defaulted_not_present s Hs Hap). simpl.
       apply amem_alookup in Hpres. destruct Hpres as [v Hv]. rewrite Hv. auto.
     - rewrite <- Hfam in *. revert Hnc. apply forallb_imp. intros k _. apply jconstr_mono. lia.
+  Qed.
+
+  Lemma construct_generic_ok fuel kwargs0 vrefs o :
+    kwargs0 = kwargs ->
+    construct_generic vr ev w pok sok rc rp ro fuel c false false kwargs0 pre vrefs = Ok o ->
+    good (cid c) o.
+  Proof.
+    intros E H. destruct (construct_generic_facts fuel kwargs0 vrefs o E H) as (setting & -> & F).
+    apply facts_good. exact F.
   Qed.
 End Obj.
